@@ -119,7 +119,8 @@ Fixpoint alookup (k : Z) (l : list (Z * Z)) : option Z :=
    snone `id(None) in memo` (Annotable.__deepcopy__ memoises every attribute VALUE, also None;
          AnnotationSet.__deepcopy__ looks up memo[id(self.target)] and target may be None)
    sc    proof instrumentation only: (source object, the object created as its copy), one pair per
-         allocation of a copy.  Never read by the interpreter. *)
+         allocation of a copy (the AnnotationSet objects built by `annotations.add` and their two
+         containers are not recorded).  Never read by the interpreter. *)
 Record st := mkSt { sh : heap; sm : list (Z * Z); snone : bool; sc : list (Z * Z) }.
 
 Definition alloc (s : st) (x : obj) : st * Z :=
@@ -286,14 +287,7 @@ Definition deep_copy_annotations_from (rec : rec_t) (s : st) (dst src : Z) : res
         do s1 <- copy_annotation_items rec s dst src (values (body_of s lx)) ;;
         (* if hasattr(self, "_annotations"): memo[id(other._annotations)] = self._annotations *)
         match bget (body_of s1 dst) NM_ANN with
-        | Some (R sy) =>
-          let s2 := memo_set s1 sx sy in
-          (* instrumentation: the set and its two containers correspond *)
-          let s3 := note s2 sx sy in
-          let s4 := match bget (body_of s3 sx) NM_ILIST, bget (body_of s3 sy) NM_ILIST with
-                    | Some (R a), Some (R b) => note s3 a b | _, _ => s3 end in
-          Ok (match bget (body_of s4 sx) NM_ISET, bget (body_of s4 sy) NM_ISET with
-              | Some (R a), Some (R b) => note s4 a b | _, _ => s4 end)
+        | Some (R sy) => Ok (memo_set s1 sx sy)
         | Some (P _) => Ok (memo_val s1 (R sx) PNone)
         | None => Ok s1
         end
@@ -398,11 +392,7 @@ Definition dc_step (rec : rec_t) (s : st) (v : val) : res (st * val) :=
             let s2 := note (memo_set s1 x o) x o in                   (* memo[id(self)] = o *)
             match bget (obody ob) NM_ILIST with
             | Some (R lx) =>
-              (* instrumentation: the two containers correspond *)
-              let s3 := match bget (body_of s2 o) NM_ILIST with Some (R l) => note s2 lx l | _ => s2 end in
-              let s4 := match bget (obody ob) NM_ISET, bget (body_of s3 o) NM_ISET with
-                        | Some (R zx), Some (R z) => note s3 zx z | _, _ => s3 end in
-              do s5 <- annset_items rec s4 o (values (body_of s4 lx)) ;; Ok (s5, R o)
+              do s5 <- annset_items rec s2 o (values (body_of s2 lx)) ;; Ok (s5, R o)
             | _ => Err AttrErr
             end
           end
@@ -658,3 +648,40 @@ Definition case_run (c : case) : res (list obj * val) :=
   | Err e => Err e
   | OutOfFuel => OutOfFuel
   end.
+
+(* ---- reachability (specification) --------------------------------------------------------------- *)
+
+(* b is referred to by a key or a value of the body of a *)
+Definition edge (h : heap) (a b : Z) : Prop :=
+  exists ob k v, hget h a = Some ob /\ In (k, v) (obody ob) /\ (k = R b \/ v = R b).
+
+Inductive reach (h : heap) (a : Z) : Z -> Prop :=
+| reach_refl : reach h a a
+| reach_step : forall b c, reach h a b -> edge h b c -> reach h a c.
+
+(* later field writes: the body of object (fst w) is replaced by (snd w) *)
+Definition write_all (h : heap) (ws : list (Z * obj)) : heap :=
+  fold_left (fun h w => hset h (fst w) (snd w)) ws h.
+
+(* ---- content relation between a source heap and its copy ------------------------------------------ *)
+
+Definition is_annk (k : kind) : bool :=
+  match k with KAnnotable | KTaxon | KNamespace => true | _ => false end.
+
+(* v' in the copy corresponds to v in the source: equal immutable values; a reference to the recorded
+   copy of the referenced object; or the very same source object (seeds, atomic objects) *)
+Definition vrel (n0 : Z) (c : list (Z * Z)) (v v' : val) : Prop :=
+  match v, v' with
+  | P p, P q => p = q
+  | R a, R b => In (a, b) c \/ (a = b /\ 0 <= a < n0)
+  | _, _ => False
+  end.
+
+(* entries of a copy that are rebuilt rather than derived from the same entry of the source: the
+   annotation set of an annotable object, and the two containers of a copied AnnotationSet *)
+Definition rebuilt (kd : kind) (k : val) : Prop :=
+  (is_annk kd = true /\ k = NM_ANN) \/ (kd = KAnnSet /\ (k = NM_ILIST \/ k = NM_ISET)).
+
+(* entries of a source object that the copy algorithm does not carry over entry by entry *)
+Definition not_carried (kd : kind) (k : val) : Prop :=
+  (is_annk kd = true /\ k = NM_ANN) \/ (kd = KAnnSet /\ k <> NM_TARGET).
